@@ -24,6 +24,7 @@ VIEWS = {
     "C20": ["mls", "chain", "snaps"],
     "C03": ["st", "mls", "msgs", "res"],
     "C18": ["mls", "msgs", "last"],
+    "C16": ["st", "mls", "chain", "members", "mdata", "rec", "pend", "props", "res"],
     "C11": ["st", "mls", "chain", "members", "pend", "props", "mdata", "rec", "last", "msgs", "proc", "snaps", "res", "out"],
 }
 
@@ -324,4 +325,26 @@ def plan_C18(ctx, rt):
                            "every call; non-trivial = at least two messages created")
 
 
-PLANS = {"C03": plan_C03, "C18": plan_C18, "C11": plan_C11, "C01": plan_C01, "C02": plan_C02, "C07": plan_C07, "C08": plan_C08, "C20": plan_C20}
+def welcome_profiles():
+    q = [dict(n=25, backend="mixed", profile="welcome"),
+         dict(n=25, backend="sql", profile="welcome"),
+         dict(n=8, steps=60, backend="mixed", regime="causal", profile="members", observers=1, wreplay=1)]
+    t = [dict(n=150, backend=["mem", "sql", "mixed"][i % 3], profile="welcome") for i in range(6)]
+    return {"quick": q, "thorough": t}
+
+
+def nt_welcome(h):
+    ws = [d for d in h if d["op"] == "Welcome"]
+    return len(ws) >= 2 and any(d["what"] == "accept" and d["res"] == "Ok" for d in ws)
+
+
+def plan_C16(ctx, rt):
+    return run_marmot(ctx, rt, invariants=["InvC16", "InvC08"], properties=["ActC16", "ActC16Join"], view="C16", mc=MC_CORE,
+                      profiles=welcome_profiles(), nontrivial=nt_welcome, assumptions=ASSUME_MARMOT,
+                      rule="directed-random invitation scenarios: valid welcome, the same rumor replayed under fresh wrapper ids, welcome "
+                           "handed to a non-recipient, process/accept/decline in random order and repetition, interleaved with messages and "
+                           "commits, remove + re-invite with the joiner having / not having processed its removal; recipients in every state "
+                           "(none, pending, active, inactive); non-trivial = >= 2 welcome calls incl. a successful accept")
+
+
+PLANS = {"C16": plan_C16, "C03": plan_C03, "C18": plan_C18, "C11": plan_C11, "C01": plan_C01, "C02": plan_C02, "C07": plan_C07, "C08": plan_C08, "C20": plan_C20}
